@@ -676,6 +676,8 @@ func provloopsExtra(t *tr) string {
 		} else {
 			b.WriteString(gx.grpcStart(fd))
 		}
+		// round 6: the token limit of the scanners, pass by pass
+		b.WriteString(provloopsSizeExtra(t, gp, load("github.com/yandex/pandora/components/providers/http/decoders")))
 	}
 	// ------------------------------------------------------------ core/provider: queue + DecodeProvider
 	{
@@ -1087,7 +1089,8 @@ func (x *provloopsPl) grpcStart(fd *ast.FuncDecl) string {
 		switch {
 		case src == "passNum++":
 			preOK = true
-		case src == "scanner := bufio.NewScanner(ammoFile)", strings.HasPrefix(src, "if p.Config.MaxAmmoSize != 0 {"):
+		case src == "scanner := bufio.NewScanner(ammoFile)", strings.HasPrefix(src, "if p.Config.MaxAmmoSize != 0 {"),
+			strings.HasPrefix(src, "scanner := ") && strings.HasSuffix(src, "(ammoFile)"):
 		default:
 			x.fail(s, "statement before the inner loop: %s", src)
 		}
@@ -1128,7 +1131,14 @@ func (x *provloopsPl) grpcStart(fd *ast.FuncDecl) string {
 	innerTxt := x.guards(inner.Body.List, "  ", g)
 	// after the inner loop
 	ga := &provloopsGuardCtx{ret: x.retSentinel("some "), brk: "some RunRes.nil"}
-	ga.skip = func(s string) bool { return s == "err := scanner.Err()" || s == "_, err = ammoFile.Seek(0, 0)" }
+	ga.skip = func(s string) bool {
+		// the scanner set-up (round 6: wherever it stands; what it means is regenerated by area_provloops_size.go)
+		if s == "scanner = bufio.NewScanner(ammoFile)" || strings.HasPrefix(s, "scanner = ") && strings.HasSuffix(s, "(ammoFile)") && !strings.Contains(s, ";") ||
+			strings.HasPrefix(s, "if p.Config.MaxAmmoSize != 0 {") && !strings.Contains(s, "return") && !strings.Contains(s, "break") && !strings.Contains(s, "continue") {
+			return true
+		}
+		return s == "err := scanner.Err()" || s == "_, err = ammoFile.Seek(0, 0)"
+	}
 	ga.special = func(s ast.Stmt, rest []ast.Stmt, ind string) (string, bool) {
 		// I/O error checks: `if err != nil { return errors.Wrap(…) }`
 		if is, ok := s.(*ast.IfStmt); ok && x.src(is.Cond) == "err != nil" && len(is.Body.List) == 1 {
